@@ -62,7 +62,13 @@ def main():
       continue
     tree = make_copy()
     try:
-      if "patch" in m:
+      if "revert_commit" in m:
+        diff = subprocess.run(["git", "-C", "/repo", "show", "--format=", m["revert_commit"]], capture_output=True, text=True).stdout
+        r = subprocess.run(["patch", "-R", "-p1", "-d", tree], input=diff, capture_output=True, text=True)
+        if r.returncode != 0:
+          print("MUTANT %-40s revert failed: %s" % (m["name"], r.stdout[-300:]))
+          continue
+      elif "patch" in m:
         r = subprocess.run(["patch", "-p1", "-d", tree, "-i", m["patch"]], capture_output=True, text=True)
         if r.returncode != 0:
           print("MUTANT %-40s patch failed: %s" % (m["name"], r.stdout[-300:]))
